@@ -9,3 +9,4 @@ pub mod refsem;
 pub mod spec;
 
 pub use harness::{guard, my_err, my_err_calls, Ctx, MyErr, Nd, Obs, Program, Tier};
+pub fn id<T>(t: T) -> T { t }
